@@ -124,7 +124,9 @@ Seed2 == [Seed1 EXCEPT !["t2"] = [Absent EXCEPT !.cols = [c \in Cn |-> IF c = "c
 \* Seed2 with a cascading child: a parent rebuilt with foreign keys enforced would silently delete the child's rows
 \* ... and a VIRTUAL generated column (its values are computed on read; when it becomes a regular column they must be materialised)
 Seed5 == [Seed2 EXCEPT !["t2"].fks = {[name |-> "f1", col |-> "b", ref |-> "t1", refcol |-> "a", onupd |-> "NO ACTION", ondel |-> "CASCADE"]},
-                       !["t2"].cols["c"] = [type |-> "INT", null |-> FALSE, dflt |-> "none", gen |-> "virtual"]]
+                       !["t2"].cols["c"] = [type |-> "INT", null |-> FALSE, dflt |-> "none", gen |-> "virtual"],
+                       \* ... and a nullable one in the parent: when it becomes a regular column a copy that leaves it out loses values silently
+                       !["t1"].cols["c"] = [type |-> "INT", null |-> TRUE, dflt |-> "none", gen |-> "virtual"]]
 \* Seed1 next to a table with a single column: whatever is modified there, no column of the table is left unchanged
 Seed6 == [Seed1 EXCEPT !["t2"] = [Absent EXCEPT !.cols = [c \in Cn |-> IF c = "a" THEN [type |-> "INT", null |-> TRUE, dflt |-> "none", gen |-> ""] ELSE NoCol]]]
 Seed3 == [Empty EXCEPT !["t1"] = [Absent EXCEPT !.cols = [c \in Cn |-> IntCol], !.pk = <<"b", "a">>, !.worowid = TRUE,
